@@ -105,6 +105,7 @@ static void txt_cat_dec(struct txt* t, uint32_t v) { unsigned d = tens_of(v); if
 #define FCAP (SLEN + 1)
 static uint32_t NT;                                  /* number of tests of this run */
 static uint32_t t_ignored[MAXT], t_fails[MAXT], t_line[MAXT], t_fline[MAXT];
+static uint32_t t_filtered[MAXT], xi[MAXT], NX;   /* tests filtered out of the run; xi[k] = index of the k-th test that does run */
 struct fld { uint8_t s[FCAP]; };                    /* (no two-dimensional arrays: CBMC 6.11 misreads rows of a uint8_t[][] through a pointer) */
 static struct fld t_group[MAXT], t_name[MAXT], t_file[MAXT], t_ffile[MAXT], t_fmsg[MAXT];
 static struct txt t_group_t[MAXT], t_name_t[MAXT], t_fmsg_t[MAXT], t_location_t[MAXT];     /* the texts a reader of the stream must get back */
@@ -232,7 +233,7 @@ static void on_message(void) {
     case K_TEST_FAILED:
       if (!C_test_open || !named || n != 3 || R_attr1 != A_MESSAGE || R_attr2 != A_DETAILS || !txt_eq(&R_val0, &C_tname)) C_bad_structure = 1;
       C_failed_seen++;
-      for (uint32_t i = 0; i < MAXT; i++) if (i == C_ti && i < NT && n == 3) {
+      for (uint32_t i = 0; i < MAXT; i++) if (C_ti < NX && i == xi[C_ti] && n == 3) {
         if (!txt_eq(&R_val1, &t_location_t[i])) C_bad_value = 1;          /* where it failed */
         if (!txt_eq(&R_val2, &t_fmsg_t[i])) C_bad_value = 1;              /* the failure message */
       }
@@ -240,8 +241,8 @@ static void on_message(void) {
     case K_TEST_FINISH:
       if (!C_test_open || !named || n != 2 || R_attr1 != A_DURATION || !txt_eq(&R_val0, &C_tname)) C_bad_structure = 1;
       C_test_open = 0;
-      if (C_ti >= NT) C_bad_structure = 1;                                                         /* more tests than the run has */
-      for (uint32_t i = 0; i < MAXT; i++) if (i == C_ti && i < NT) {
+      if (C_ti >= NX) C_bad_structure = 1;                                                         /* more tests than the run has */
+      for (uint32_t i = 0; i < MAXT; i++) if (C_ti < NX && i == xi[C_ti]) {
         if (!txt_eq(&C_tname, &t_name_t[i]) || !txt_eq(&C_sname, &t_group_t[i])) C_bad_value = 1;   /* names decode to the originals */
         if (C_ignored_seen != t_ignored[i]) C_bad_structure = 1;                                  /* flagged ignored iff ignored */
         if (C_failed_seen != t_fails[i]) C_bad_structure = 1;                                     /* one failure message iff it failed */
@@ -300,7 +301,7 @@ static void set_up_run(const int n, const uint8_t* raw, const uint8_t* lines, co
     const uint8_t* r = raw + i * 5 * SLEN;
     FIELD(t_group[i].s, r, 0); FIELD(t_name[i].s, r, SLEN); FIELD(t_file[i].s, r, 2 * SLEN); FIELD(t_ffile[i].s, r, 3 * SLEN); FIELD(t_fmsg[i].s, r, 4 * SLEN);
     t_line[i] = lines[2 * i] & LINEMASK; t_fline[i] = lines[2 * i + 1] & LINEMASK;
-    t_ignored[i] = kinds[i] == 2; t_fails[i] = kinds[i] == 1;                 /* 0 pass, 1 fail, 2 ignored */
+    t_ignored[i] = kinds[i] == 2; t_fails[i] = kinds[i] == 1; t_filtered[i] = kinds[i] == 3;   /* 0 pass, 1 fail, 2 ignored, 3 filtered out by a name filter */
     txt_clear(&t_group_t[i]); txt_cat(&t_group_t[i], t_group[i].s, SLEN);
     txt_clear(&t_name_t[i]); txt_cat(&t_name_t[i], t_name[i].s, SLEN);
     txt_clear(&t_fmsg_t[i]); txt_cat(&t_fmsg_t[i], t_fmsg[i].s, SLEN);
@@ -316,9 +317,12 @@ static void set_up_run(const int n, const uint8_t* raw, const uint8_t* lines, co
 }
 static void drive_and_check(const int n) {
   uint32_t groups = 0;
+  NX = 0;
+  for (int i = 0; i < n; i++) if (!t_filtered[i]) xi[NX++] = (uint32_t)i;
   for (int i = 0; i < n; i++) {
     h_set_test((uint32_t)i, t_ignored[i], t_group[i].s, t_name[i].s, t_file[i].s, t_line[i]);
     if (t_fails[i]) h_set_failure((uint32_t)i, t_ffile[i].s, t_fline[i], t_fmsg[i].s);
+    if (t_filtered[i]) h_filter_out((uint32_t)i);
     if (i == 0 || !t_eq(t_group[i - 1].s, t_group[i].s)) groups++;       /* a group = maximal run of consecutive tests of one group name */
   }
   to_reader = 1; R_state = S_BOL; words_init();
@@ -333,7 +337,7 @@ static void drive_and_check(const int n) {
   CHECK(!C_bad_structure, "suite and test messages nest: start/finish pair up, ignored flagged iff ignored, a failure names the open test");
   CHECK(!C_bad_value, "every name, location and message value decodes to the original text");
   CHECK(!C_suite_open && !C_test_open, "every started suite and test is finished");
-  CHECK(C_ti == NT, "one testStarted/testFinished pair per test of the run");
+  CHECK(C_ti == NX, "one testStarted/testFinished pair per test of the run that is not filtered out");
   CHECK(C_suites_started == groups && C_suites_finished == groups, "one testSuiteStarted/testSuiteFinished pair per test group");
   WITNESS("end");
 }
@@ -360,6 +364,20 @@ HARNESS(harness_stream_1_1) { body_stream(1, 1); }
 HARNESS(harness_stream_1_2) { body_stream(1, 2); }
 #define S2(a, b) HARNESS(harness_stream_2_##a##b) { body_stream(2, a + 3 * b); }
 S2(0, 0) S2(0, 1) S2(0, 2) S2(1, 0) S2(1, 1) S2(1, 2) S2(2, 0) S2(2, 1) S2(2, 2)
+/* a run with a name filter: the filtered-out test is the last (or only) one of its group */
+static void body_filtered(const int n, const int which) {
+  h_init();
+  IN_ARR_U8(raw, MAXT * 5 * SLEN); IN_ARR_U8(lines, MAXT * 2);
+  uint8_t kinds[MAXT] = {0, 0, 0};
+  kinds[which] = 3;
+  set_up_run(n, raw, lines, kinds);
+#ifdef KF_C20_2
+  for (int i = 0; i < n; i++) ASSUME(t_group[i].s[0] != 0);
+#endif
+  drive_and_check(n);
+}
+HARNESS(harness_filtered_2_last) { body_filtered(2, 1); }
+HARNESS(harness_filtered_3_middle) { body_filtered(3, 1); }
 HARNESS(harness_stream_3_000) { body_stream(3, 0); }
 HARNESS(harness_stream_3_120) { body_stream(3, 1 + 3 * 2); }
 
